@@ -17,11 +17,15 @@ StructReqs(p) == {Req("Insert", dt, a) : dt \in AllDts(p), a \in Amounts(p, {TOP
 \* unit: msat per model unit; t0: real second of model time 0; cap: exploration bound - a state
 \* holding a small bucket value above cap is not expanded (matters only for near-u64::MAX
 \* limits, where small amounts could pile up for ever)
+\* from: the spec the control / the node was CREATED AND USED under before the case's spec was
+\* installed (Velocity!SpecChange); kind "none": no spec change, the case starts with a new signer
+NoFrom == [kind |-> "none", pay |-> Unl(1, 1), fee |-> Unl(1, 1)]
 Larger(a, b) == IF a > b THEN a ELSE b
 SmallL(p) == IF IsTop(p.L) THEN 2 ELSE p.L
 Case(id, level, kind, pay, fee, scale, unit, t0, reqs) ==
   [id |-> id, level |-> level, kind |-> kind, pay |-> pay, fee |-> fee, scale |-> scale,
-   unit |-> unit, t0 |-> t0, cap |-> Larger(SmallL(pay), SmallL(fee)) + 1, ns |-> 0, reqs |-> SetToSeq(reqs)]
+   unit |-> unit, t0 |-> t0, cap |-> Larger(SmallL(pay), SmallL(fee)) + 1, ns |-> 0, from |-> NoFrom,
+   reqs |-> SetToSeq(reqs)]
 
 StructCase(id, p, t0) == Case(id, "struct", "intervals", p, Unl(p.B, p.K), 1, 1, t0, StructReqs(p))
 
@@ -63,6 +67,34 @@ NodeMixedCase(id, kind, p, f, scale) ==
        {Req(op, dt, a) : op \in {"AddKeysend", "Onchain"}, dt \in {0, W(p), p.K * p.B}, a \in {p.L}}
          \cup {RestartReq})
 
+\* SPEC CHANGE (VelocityControl::update_spec with a spec that does not match the control;
+\* Node::new_full restoring a node whose policy has changed).  The case's root is reached on the real
+\* code by: a control / node created under `from`, the full limit of every limited control approved
+\* there, then the case's spec installed (struct: update_spec; node: restore from the store with the
+\* changed policy, then one zero-amount payment so that the store holds the new controls).  By
+\* Velocity!SpecChange that state is InitState of the NEW spec, and the monitor counts the approvals
+\* since the change over the windows of the NEW spec.  `Restart` in these cases is a restart with the
+\* SAME (new) spec: struct level = serde round trip + update_spec(same spec), as Node::new_full does.
+\* Directions: interval type with another bucket count (Hourly 12 x 300 s <-> Daily 24 x 3600 s),
+\* limit only, unlimited -> limited.
+WithFrom(c, kind, pay, fee) == [c EXCEPT !.from = [kind |-> kind, pay |-> pay, fee |-> fee]]
+SpecStructCase(id, kind, p, scale) ==
+  Case(id, "struct", kind, p, Unl(p.B, p.K), scale, 1, EPOCH,
+       {Req("Insert", dt, a) : dt \in EdgeDts(p), a \in Amounts(p, {TOP})} \cup {RestartReq})
+QuickRespec ==
+  << WithFrom(SpecStructCase("s-respec-h2d-2", "daily", Daily(2), 1800), "hourly", Hourly(2), Unl(2, 12)),
+     WithFrom(SpecStructCase("s-respec-d2h-2", "hourly", Hourly(2), 150), "daily", Daily(2), Unl(2, 24)),
+     WithFrom(SpecStructCase("s-respec-limit-h-3", "hourly", Hourly(3), 150), "hourly", Hourly(2), Unl(2, 12)),
+     WithFrom(NodeMixedCase("n-respec-h2d-2", "daily", Daily(2), Daily(2), 1800), "hourly", Hourly(2), Hourly(2)),
+     WithFrom(NodeMixedCase("n-respec-d2h-2", "hourly", Hourly(2), Hourly(2), 150), "daily", Daily(2), Daily(2)) >>
+ThoroughRespec ==
+  << WithFrom(SpecStructCase("s-respec-u2d-3", "daily", Daily(3), 1800), "hourly", Unl(2, 12), Unl(2, 12)),
+     WithFrom(NodePayCase("n-respec-pay-h2d-2", "daily", Daily(2), 1800, 50), "hourly", Hourly(2), Unl(2, 12)),
+     WithFrom(NodePayCase("n-respec-pay-d2h-2", "hourly", Hourly(2), 150, 0), "daily", Daily(2), Ctl(2, 24, 50)),
+     WithFrom(NodeFeeCase("n-respec-fee-h2d-2", "daily", Daily(2), 1800, 50), "hourly", Unl(2, 12), Hourly(2)),
+     WithFrom(NodeFeeCase("n-respec-fee-d2h-2", "hourly", Hourly(2), 150, 0), "daily", Ctl(2, 24, 50), Daily(2)),
+     WithFrom(NodeMixedCase("n-respec-limit-h-3", "hourly", Hourly(3), Hourly(3), 150), "hourly", Hourly(2), Hourly(2)) >>
+
 QuickCases ==
   << StructCase("s-2-3-4", Ctl(2, 3, 4), 0),
      StructCase("s-3-2-5", Ctl(3, 2, 5), 0),
@@ -73,7 +105,7 @@ QuickCases ==
      NodePayCase("n-pay-hourly-2", "hourly", Hourly(2), 150, 0),
      NodeFeeCase("n-fee-hourly-2", "hourly", Hourly(2), 150, 0),
      NodeMixedCase("n-mixed-hourly-2", "hourly", Hourly(2), Hourly(2), 150),
-     NodeRetryCase("n-retry-hourly-2", "hourly", Hourly(2), 150, 1) >>
+     NodeRetryCase("n-retry-hourly-2", "hourly", Hourly(2), 150, 1) >> \o QuickRespec
 
 ThoroughCases ==
   QuickCases \o
@@ -90,7 +122,7 @@ ThoroughCases ==
      NodeFeeCase("n-fee-daily-2", "daily", Daily(2), 1800, 50),
      NodeMixedCase("n-mixed-daily-2", "daily", Daily(2), Daily(2), 1800),
      NodeRetryCase("n-retry-daily-3", "daily", Daily(3), 1800, 1),
-     NodeRetryCase("n-retry-hourly-2x2", "hourly", Hourly(2), 150, 2) >>
+     NodeRetryCase("n-retry-hourly-2x2", "hourly", Hourly(2), 150, 2) >> \o ThoroughRespec
 
 Cases == IF Tier = "thorough" THEN ThoroughCases ELSE QuickCases
 
